@@ -25,6 +25,9 @@ def main(argv):
     except Unanalysable as u:
         chk.violation("%s/unanalysable/%s" % (pid, u.what[:120]), "reason=unanalysable: %s" % u.what,
                       {"where": u.where, "trace": traceback.format_exc()[-1500:]})
+    except Exception as e:     # fail closed: an analyser crash is never a pass
+        chk.violation("%s/internal-error/%s" % (pid, type(e).__name__), "reason=unanalysable (analyser error): %r" % (e,),
+                      {"trace": traceback.format_exc()[-3000:]})
     return chk.finish()
 
 
